@@ -296,6 +296,44 @@ def container_manager_rule(rep, f):
     rep.floor("C18.c", n, 20)
 
 
+def callback_owner_rule(rep, f):
+    rep.rule("C18.d", "no raw owner across an application callback: when a function creates an object with `new` into a local, deletes "
+             "it itself later, and calls an application handler interface in between (document / doctype / error / entity handlers "
+             "may throw), the local is owned by a Janitor — a plain `delete` after the callback is skipped when the handler throws and "
+             "the object is never returned to its memory manager")
+    H = set(C17.HANDLERS)
+    n = 0
+    for q, fns in sorted(f.by_q.items()):
+        for fn in fns:
+            facts = fn["_facts"]
+            dels = [x for x in facts if x["k"] == "delete" and x["x"][2][0] == "l"]
+            hcalls = [x for x in facts if x["k"] == "call" and x["x"][1].rsplit("::", 1)[0] in H]
+            if not hcalls:
+                continue
+            news = {}
+            for x in facts:
+                if x["k"] == "asg" and x["lhs"][0] == "l" and any(isinstance(s_, list) and s_ and s_[0] == "n" for s_ in sx_walk(x["rhs"])):
+                    news.setdefault(x["lhs"][1], x.get("l", 0))
+                if x["k"] == "local" and x.get("init") and any(isinstance(s_, list) and s_ and s_[0] == "n" for s_ in sx_walk(x["init"])) \
+                        and "Janitor" not in x.get("type", ""):
+                    news.setdefault(x["name"], x.get("l", 0))
+            for L, nl in sorted(news.items()):
+                later = [h for h in hcalls if h.get("l", 0) > nl]
+                if not later:
+                    continue
+                n += 1
+                guarded = any(x["k"] in ("local", "ctor") and "Janitor" in (x.get("type", "")) and
+                              any(s_ == ["l", L] for s_ in sx_walk(x.get("init") or x.get("x") or x.get("args") or []))
+                              for x in facts)
+                raw = [d for d in dels if d["x"][2][1] == L and any(nl < h.get("l", 0) < d.get("l", 0) for h in hcalls)]
+                ok = not raw or guarded
+                rep.ob("C18.d", "%s/%s" % (q, L), ok, "no raw delete behind a handler callback" if ok else
+                       "%s: %s is created at line %s, %s is called at line %s and only then `delete %s` (line %s): if the handler throws "
+                       "the object leaks" % (q, L, nl, later[0]["x"][1], later[0].get("l"), L, raw[0].get("l")),
+                       "%s:%s" % (fn["file"], raw[0].get("l", 0) if raw else nl))
+    rep.floor("C18.d", n, 5)
+
+
 def run(rep):
     f = core.library_facts()
     rep.units.update(os.path.relpath(t, core.REPO) for t in f.tus)
@@ -305,6 +343,7 @@ def run(rep):
     counter_rule(rep, f)
     manager_rule(rep, f)
     container_manager_rule(rep, f)
+    callback_owner_rule(rep, f)
     rep.undecided += ["exactly-once release on every dynamic path (error unwinding with partially built objects)",
                       "leak freedom per document and per way a parse can end",
                       "ownership carried by adoption flags of the container templates (e.g. RefStackOf adoptElems)"]
